@@ -115,6 +115,18 @@ CHECKS = {
              "and bit flips deep in the marshal payload are outside. One defect repaired.",
         ref="DESIGN.md 4 C19",
     ),
+    "C12": dict(
+        text="Bounded model checking of the JSON history backend: (1) histories of append/flush operations (buffer sizes 1-3, five "
+             "$HISTCONTROL settings, failing / duplicate / space-prefixed commands) on the real JsonHistory, JsonCommandField and flusher "
+             "code with len, every index and negative index, slices, items() and the decoded file compared with a reference list after "
+             "every operation; (2) commands containing multi-byte UTF-8, quotes, backslashes, newlines, U+2028 and control characters "
+             "written through the real encoder into UTF-8 bytes and every value read back through the embedded index by byte offset; "
+             "(3) the index offset arithmetic of lazyjson executed symbolically with every leaf's rendering a free symbolic string, so "
+             "offsets/sizes are shown to address exactly the rendering for all rendering lengths in the bound.",
+        note="Files are in-memory UTF-8 byte buffers behind a real TextIOWrapper; flusher threads run synchronously in creation order "
+             "(the ticket queue that enforces this order is not verified). SQLite and real thread timing are outside.",
+        ref="DESIGN.md 4 C12",
+    ),
 }
 
 NA = {
